@@ -837,6 +837,12 @@ func Replay(run *hx.Run, kind string, raw json.RawMessage) bool {
 		return ReplayKeep(run, raw)
 	case "tile":
 		return ReplayTile(run, raw)
+	case "ladder":
+		var g GenDesc
+		if json.Unmarshal(raw, &g) != nil {
+			return false
+		}
+		run.Add(LadderCase(g, 0))
 	case "unit":
 		var sd StepDesc
 		if json.Unmarshal(raw, &sd) != nil {
